@@ -215,9 +215,10 @@ def rule_pad_structure(ctx, crate, rule="R-PAD-STRUCTURE"):
     ctx.check(ok, rule, "untruncated-when-not-requested", b.name, K.fn_loc(b), "without `!` over-wide content is written whole",
               "over-wide content is shortened although truncation was not requested (or never written whole)", cfg)
     # padding is written with spaces around exactly one write of the content
-    pads = [c for c in b.calls(r"std::fmt::Write::write_char", r"std::fmt::Formatter::<'a>::write_char") if const_val(c.args[1]) == " "]
-    ctx.check(len(pads) >= 2 and all(b.in_loop(c.bb) for c in pads), rule, "pads-are-spaces", b.name, K.fn_loc(b),
-              "left and right padding are loops writing ' '", "padding is not written as loops of spaces on both sides", cfg)
+    reps = [r for r in K.repeated_writes(crate, b) if const_val(r["call"].args[1]) == " "]
+    singles = [c for c in b.calls(r"std::fmt::Write::write_char", r"std::fmt::Formatter::<'a>::write_char") if const_val(c.args[1]) == " " and not b.in_loop(c.bb)]
+    ctx.check(len(reps) >= 2 and not singles, rule, "pads-are-spaces", b.name, K.fn_loc(b),
+              "left and right padding are counted repetitions of ' '", "padding is not written as counted repetitions of spaces on both sides", cfg)
 
 
 def rule_wide_msg(ctx, crate, rule="R-WIDE-MSG"):
